@@ -23,7 +23,8 @@ CLAIMED = {
                  "slice keys, iterable unpacking, len, dict-literal lookup): for every enumerated member layout the solver "
                  "shows, for all indices (unbounded int) and all run-time lengths of variadic members within the bound, "
                  "that the element Python produces is a member of the inferred value. Kernel-level claim: the visitor "
-                 "wiring is outside it."),
+                 "wiring is outside it."
+                 " Fourth round: subscripts whose key is only known to be an int / a slice (known finding C01-K1)."),
         "note": _NOTE,
         "technique": "CrossHair symbolic execution + z3 (bounded model checking of the real functions against Python's own sequence semantics)",
     },
@@ -34,7 +35,8 @@ CLAIMED = {
                  "(thorough) chained files with top-level settings, module overrides and disable_all, the solver shows for "
                  "all option values (unbounded ints / bools), command-line presence and 7 queried module paths that the "
                  "effective value equals the documented precedence; 19 kinds of malformed sections must raise for every "
-                 "offending value."),
+                 "offending value."
+                 " (25 kinds since the fourth round: bool for int, disable_all types, extend_config inside an override.)"),
         "note": _NOTE + " File system and tomli.load are replaced by in-memory stubs; TOML syntax, argparse and path resolution are outside the claim.",
         "technique": "CrossHair symbolic execution + z3 against a 25-line precedence oracle written from the documentation",
     },
@@ -43,7 +45,8 @@ CLAIMED = {
         "text": ("Bounded symbolic execution of BaseNodeVisitor.show_error's enable / file-level / trailing / own-line ignore "
                  "logic, get_unused_ignores and the unused/bare ignore reporters on files of <= 3 (quick) / <= 4 (thorough) lines "
                  "over 9 line kinds: the solver ranges over line number and code of up to two diagnostics, the enabled flags and "
-                 "the text of the comment (code names containing one another), against the projection rules of the statement."),
+                 "the text of the comment (code names containing one another), against the projection rules of the statement."
+                 " Fourth round: a first line ending in one of 8 characters that str.splitlines() splits at and the tokenizer does not; a string literal containing the ignore text (known finding C11-K1)."),
         "note": _NOTE + " Error-code names are a 3-member test enum (aa, aab, baa); NameCheckVisitor's choice of the node a diagnostic is attached to is outside the claim.",
         "technique": "CrossHair symbolic execution + z3 against a 35-line projection oracle",
     },
@@ -53,8 +56,9 @@ CLAIMED = {
                  "equals the documented Replacement meaning. H16b: the real add-ignores proposal + application loop on 7 file "
                  "layouts with a symbolic diagnostics table reaches zero failures within 2n+2 rounds, keeps statements and the "
                  "syntax tree, and every added comment silences only its own diagnostic (4 known findings stepped around). "
-                 "H16c: get_line_range_for_node equals the parser's lineno..end_lineno on 7 multi-line statement shapes."),
-        "note": _NOTE + " The fix producers inside the visitor (ast_decompiler based) are outside the claim.",
+                 "H16c: get_line_range_for_node equals the parser's lineno..end_lineno on 7 multi-line statement shapes."
+                 " H16c now covers 13 statement shapes (backslash / same-column continuations, triple-quoted strings with tails, decorated definitions). H16d: ReplacingNodeVisitor.replace_node / remove_node on statements that share their physical lines with other code: no fix, or exactly the intended program. H16e: format_strings.maybe_replace_with_fstring formats like the original % expression for every enumerated value."),
+        "note": _NOTE + " The fix producers inside NameCheckVisitor (which node gets which fix) are outside the claim; the generic producers replace_node / remove_node and maybe_replace_with_fstring are inside it since the fourth round.",
         "technique": "CrossHair symbolic execution + z3; fixpoint loop unrolled to 2n+2 rounds",
     },
     "C17": {
@@ -63,7 +67,8 @@ CLAIMED = {
                  "expression and compared, for every template up to 8 (quick) / 12 (thorough) characters, with a regular model of "
                  "CPython's parser in both directions (unsat = no template in the difference; three known difference classes are "
                  "scoped out and re-found by their own queries). H17b/H17c (CrossHair): argument checking with symbolic payloads "
-                 "and parse_format_string on symbolic templates against E3-validated models of CPython."),
+                 "and parse_format_string on symbolic templates against E3-validated models of CPython."
+                 " Fourth round: the regex translator handles \\w \\s \\D classes (ASCII scope); H17b has %% and unkeyed specifiers next to mapping keys and bytes templates with bytes / str keys."),
         "note": _NOTE + " The CPython models are validated against `%` / string.Formatter on all strings <= 4/5 over a 10-character alphabet at the start of every run (E3); a disagreement is a harness error.",
         "technique": "z3 regular-expression inclusion queries on a translation of the live regex + CrossHair symbolic execution",
         "engine": "z3re+xh",
@@ -74,7 +79,8 @@ CLAIMED = {
                  "<= 4 (thorough) parameters over all kinds and default patterns: the call shape (positional count, keyword presence, "
                  "*tuple / **dict literals, duplicated names, unknown-length *args / **kwargs) is symbolic; the oracle is CPython "
                  "itself - a def generated from the spec is really called with each path's concrete shape; for unknown-length stars "
-                 "expansions are enumerated up to length 4 / all name subsets."),
+                 "expansions are enumerated up to length 4 / all name subsets."
+                 " Fourth round: positionals written after an unknown-length star-argument (known finding C05-K2)."),
         "note": _NOTE + " E3 checks the generated def against its spec and records where inspect.Signature.bind deviates from a real call (it does in 3.12: positional-only names passed into **kwargs).",
         "technique": "CrossHair symbolic execution + z3; differential against real CPython calls inside each path",
     },
@@ -84,7 +90,8 @@ CLAIMED = {
                  "on all ordered pairs of 14 (quick) / 18 (thorough) value shapes and on triples: idempotence, commutativity, "
                  "associativity, no nesting, Never identity, the union accepts each operand and accepts exactly what an operand "
                  "accepts, equal values hash equal, substitution is the identity without type variables, removes every occurrence "
-                 "and commutes with uniting - for every payload in the stated range."),
+                 "and commutes with uniting - for every payload in the stated range."
+                 " Fourth round: two-key TypedDicts in both key orders, a function literal and its substituted copy, CallableValues of two functions with the same signature."),
         "note": _NOTE + " The real hash functions run (no coarse-hash stub), therefore payloads are bounded to [0,1] (quick) / [-2,2] (thorough).",
         "technique": "CrossHair symbolic execution + z3 of the algebraic laws on the real Value classes",
     },
@@ -94,7 +101,8 @@ CLAIMED = {
                  "the solver shows that Value.can_assign(KnownValue(o)) - what runtime.is_assignable evaluates - equals structural "
                  "membership for all int payloads, Literal constants, Annotated thresholds and TypedDict flags. E3 re-validates at "
                  "every run that the hand-built Values equal type_from_runtime of the typing spelling and that "
-                 "runtime.is_assignable agrees on concrete samples."),
+                 "runtime.is_assignable agrees on concrete samples."
+                 " Fourth round: float / int subclass and complex objects, dicts with a non-str key, Flag members, the bare typing.Tuple / type leaves."),
         "note": _NOTE + " Coarse-hash stub (eq-consistent) for KnownValue and annotated_types checks; the checker's verdict on `x: T = literal` (visitor) is outside the claim.",
         "technique": "CrossHair symbolic execution + z3 against an 80-line structural membership model",
     },
@@ -104,7 +112,8 @@ CLAIMED = {
                  "are stub atoms under a symbolic preorder (6 booleans, constructive encoding), everything above the leaves is the real "
                  "can_assign code; the verdict is also compared with a reference acceptance. H04b: accepts(A,B) and o in B => o in A on "
                  "pairs of the depth-1 vocabulary with symbolic payloads, thresholds, TypedDict required/readonly flags and a "
-                 "symbolic witness object."),
+                 "symbolic witness object."
+                 " H04c: one generic runtime-checkable protocol, five specializations x three implementing classes (typed and as literal instances): histories of two (quick) / three (thorough) queries from an empty compatibility cache, every verdict compared with the member-type reference. H04b also: Annotated wrappers around structural right-hand sides and hand-listed closed TypedDict pairs."),
         "note": _NOTE + " Protocols, callables, TypeVars and the documented leniencies (bare generics, fixed tuple accepting a variadic tuple) are outside the claim.",
         "technique": "CrossHair symbolic execution + z3; symbolic preorder as environment",
     },
@@ -115,7 +124,8 @@ CLAIMED = {
                  "real algebra and applied by the real constrain_value to 26 value shapes; for every object payload, literal in the "
                  "type and compared constant the solver shows (1) an object of the declared type that takes the branch stays in the "
                  "narrowed type, (2) the narrowed type holds nothing outside the declared and the tested type, (3) always-true / "
-                 "always-false boolability verdicts are right for every object of the type."),
+                 "always-false boolability verdicts are right for every object of the type."
+                 " Fourth round: the same comparisons through the real NameCheckVisitor._visit_single_compare on the stub (constant on the left / right), `x in 'ab'`, enum.Flag values, bare `type` against issubclass with a tuple."),
         "note": _NOTE + " How the visitor selects the constraint for a syntax tree, TypeIs/TypeGuard and match patterns are outside the claim.",
         "technique": "CrossHair symbolic execution + z3; Python's own evaluation of the condition on the symbolic object is the oracle",
     },
@@ -124,7 +134,8 @@ CLAIMED = {
         "text": ("The real OverloadedSignature.check_call runs on overload sets of 2-3 (4 in thorough) signatures whose annotations are "
                  "stub atoms under a symbolic preorder (every class hierarchy on 3 leaves); verdict and return type are compared "
                  "with a reference resolver written from the statement: first match without Any/union, union distribution for one "
-                 "union argument (positional or keyword), Any never selecting one overload when several match."),
+                 "union argument (positional or keyword), Any never selecting one overload when several match."
+                 " Fourth round: three-member unions against three overloads, overloads with typed *args / **kwargs, arguments arriving through *seq."),
         "note": _NOTE + " A minimal visitor supplies catch_errors/show_error; building OverloadedSignature from @overload definitions is outside the claim.",
         "technique": "CrossHair symbolic execution + z3; symbolic preorder as environment; 40-line reference resolver",
     },
@@ -134,7 +145,8 @@ CLAIMED = {
                  "parameter kinds, defaults and names; for every call shape (symbolic positional count and keyword presence) accepted "
                  "and expected-binds implies actual-binds, with CPython itself as binder (generated defs are really called). H07b: "
                  "typed parameters/returns are atoms under a symbolic preorder; accepted implies contravariant parameters along the "
-                 "real binding and a covariant return."),
+                 "real binding and a covariant return."
+                 " Fourth round: typed *args / **kwargs are stored as tuple[T, ...] / dict[str, T] (earlier versions passed bare atoms, which made those typed pairs vacuous); every single-parameter pair is in every tier."),
         "note": _NOTE + " Entry points that fetch signatures from function objects / protocols / overrides (visitor) are outside the claim.",
         "technique": "CrossHair symbolic execution + z3; differential against real CPython calls; symbolic preorder",
     },
@@ -144,7 +156,8 @@ CLAIMED = {
                  "T-generic signatures over stub atoms under a symbolic preorder, diagnosed <=> some explicitly passed argument is not "
                  "accepted by its parameter type; for generic signatures an accepted call's solution makes every argument acceptable "
                  "and respects bound / constraints; with real constructors (Literal, Annotated[int, Gt], Optional, list, tuple) and "
-                 "literal arguments with unbounded payloads, diagnosed <=> not a member."),
+                 "literal arguments with unbounded payloads, diagnosed <=> not a member."
+                 " H06c: every parameter kind with typed *args / **kwargs and keywords colliding with positional-only / variadic names, binding decided by a real call of a generated def; h06_dup: repeated keys in **{...}; an explicit argument that is the very Value object of the default."),
         "note": _NOTE + " Methods, constructors, dataclasses, impl functions and allow_call evaluation are outside the claim.",
         "technique": "CrossHair symbolic execution + z3; symbolic preorder; membership model",
     },
@@ -154,7 +167,8 @@ CLAIMED = {
                  "bounded / constrained T are checked by the real call path (both compatibility passes, unify_bounds_maps, "
                  "resolve_bounds_map, solve) over stub atoms under a symbolic preorder; in one path every permutation of the parameter "
                  "list is evaluated: same verdict for all orders; an accepted call's solution accepts all lower bounds, is accepted by all "
-                 "upper bounds / the declared bound, and is a constraint when constraints exist; a call with no feasible value is diagnosed."),
+                 "upper bounds / the declared bound, and is a constraint when constraints exist; a call with no feasible value is diagnosed."
+                 " H15c (solver entry point named in observe_at): multisets of 2-3 (quick) / 4 (thorough) lower / upper bounds resolved by typevar.resolve_bounds_map in every order: order-independent verdict, solution accepts every lower bound and is accepted by every upper bound (known finding C15-K2 with several upper bounds)."),
         "note": _NOTE + " A solve()-only obligation is deliberately not claimed (its counterexample is rescued by the caller's second pass - DESIGN.md section 7 F3).",
         "technique": "CrossHair symbolic execution + z3; symbolic preorder; all permutations inside one path",
     },
@@ -164,7 +178,8 @@ CLAIMED = {
                  "(if/elif/else depth 2, and/or/not, is_of_type with and without exclude_any=False, == / is None, is_provided / "
                  "is_positional / is_keyword, sys.version_info >= (3, N), return, show_error) with two parameters; atoms are under a "
                  "symbolic preorder, literals / compared constant / N are symbolic. Chosen branches, show_error set and result equal a "
-                 "reference interpreter for atomic arguments lifted to unions member-wise, as the specification prescribes."),
+                 "reference interpreter for atomic arguments lifted to unions member-wise, as the specification prescribes."
+                 " Fourth round: nested fall-through bodies; known finding C20-K1 (no fall-through narrowing after a partially matching if-return; over-approximation only)."),
         "note": _NOTE + " Evaluator is subclassed only to resolve the names of the generated bodies; positions fed from binding (signature.py) are enumerated, not derived.",
         "technique": "CrossHair symbolic execution + z3; symbolic preorder; 70-line reference interpreter from docs/type_evaluation.md",
     },
@@ -174,7 +189,8 @@ CLAIMED = {
                  "the depth-1 type vocabulary, can_assign in both directions (also in exclude-Any mode), unite_values and "
                  "substitute_typevars return a result of the documented type instead of raising, for every payload in the bound. The "
                  "first half - the checker never crashes on any syntactically valid module - runs through NameCheckVisitor, which "
-                 "cannot be executed symbolically here, and is NOT covered."),
+                 "cannot be executed symbolically here, and is NOT covered."
+                 " Fourth round: unions of 11-12 literals and unhashable list / dict / set literals."),
         "note": _NOTE + " Callables, protocols and synthetic types are outside; payloads bounded to [0,1] because KnownValue.substitute_typevars realises its payload.",
         "technique": "CrossHair symbolic execution + z3; any escaping exception is a counterexample",
     },
